@@ -129,6 +129,9 @@ def run(ctx):
         return
     for i, o in zip(bigm, out):
         model[i] = o
+    # the extracted driver against Coq's own evaluation of the same definitions, on a sample of this run's lines
+    import wirecross
+    wirecross.cross(ctx, [(lines[i], model[i]) for i in small], ctx.sub_rng("c01-coqcross"), 1200 if thorough else 120, name="c01_cross")
 
     phases = {}
     for c, line, li, lm in zip(cases, lines, impl, model):
